@@ -173,7 +173,41 @@ def body_engine(ctx, case):
     classify(ctx, paths, blank, "engine")
 
 
+def strat_ties():
+    from hypothesis import strategies as st
+    return st.tuples(st.integers(2, 6), st.integers(1, 4), st.integers(1, 10), st.integers(0, 2 ** 31 - 1), st.sampled_from([2, 3, 5]))
+
+
+def body_ties(ctx, case):
+    """quantised scores with exact ties: the two decoders must still produce the same text for the same network output
+    (both are documented to take the first maximal index), and that text is the collapse of that arg-max path."""
+    import torch
+    from pero_ocr.ocr_engine.pytorch_ocr_engine import greedy_decode_ctc
+    from pero_ocr.decoding.decoders import GreedyDecoder, BLANK_SYMBOL
+    C, N, T, seed, levels = case
+    rs = np.random.RandomState(seed)
+    sc = rs.randint(0, levels, size=(N, C, T)).astype(np.float32)      # few levels -> many exact ties, flat frames
+    chars = CHARS[:C - 1] + ["​"]
+    got = ctx.must("greedy_decode_ctc_raises", greedy_decode_ctc, torch.from_numpy(sc.copy()), chars)
+    dec = GreedyDecoder(CHARS[:C - 1] + [BLANK_SYMBOL])
+    ties = 0
+    for n in range(N):
+        x = sc[n].T.astype(np.float64)
+        srt = np.sort(x, axis=1)
+        ties += int((srt[:, -1] == srt[:, -2]).sum()) if C > 1 else 0
+        lp = x - x.max(axis=1, keepdims=True)
+        lp = lp - np.log(np.exp(lp).sum(axis=1, keepdims=True))
+        alone = ctx.must("greedy_decoder_raises", dec, lp).best_hyp()
+        first_max = [int(np.argmax(x[t])) for t in range(T)]
+        want = ref_collapse(first_max, C - 1, chars)
+        ctx.check(got[n] == alone, "decoders_disagree_on_tied_scores", lambda: "scores=%r batched %r stand-alone %r" % (sc[n].tolist(), got[n], alone))
+        ctx.check(alone == want, "standalone_greedy_not_collapse_of_argmax", lambda: "scores=%r got %r want %r" % (sc[n].tolist(), alone, want))
+    if ties and N >= 1 and T >= 2:
+        ctx.nontrivial(("ties", case))
+
+
 UNITS = [
     Unit("decode", "given", body=body_decode, strategy=strat_paths, quick=2000, thorough=50000),
+    Unit("ties", "given", body=body_ties, strategy=strat_ties, quick=800, thorough=10000),
     Unit("engine", "given", body=body_engine, strategy=strat_paths, quick=600, thorough=10000),
 ]
